@@ -79,6 +79,14 @@ CHECKS = {
                 note="message texts compared between runs of the same build only; faults raised by generated constructs "
                      "(undeclared temp, divert through 0, stray tunnel return, exhausted content, old inkVersion)",
                 technique="TLA+ trace validation (InkHostTrace + InkHostRules) of handler vs no-handler runs"),
+    "C05": dict(level=TV, ref="5/C05",
+                text="For each of the 121 corpus pairs the choice tree of the reference-compiled story is explored (exhaustively "
+                     "to a depth/path bound; breadth-first bounded for The Intercept) and every maximal path is replayed on "
+                     "the story produced by this compiler; TLC validates each replayed call against the reference system "
+                     "(InkHostAbs rule Valid): result, lines, tags, choices, global values. Shuffle stories modulo the draw.",
+                note="same runtime, same seed; nine stories and The Intercept disagree on the unchanged tree and are listed as "
+                     "known findings by story",
+                technique="TLA+ trace validation (InkHostTrace/InkHostAbs): reference-compiled story as base, Rust-compiled as subject"),
 }
 
 NOT_YET = {}
